@@ -1,5 +1,6 @@
 //! Entry point: `verif <cNN> [--tier quick|thorough] [--replay file]`.
 mod checks;
+mod cmds;
 mod adev;
 mod ctx;
 mod dev;
